@@ -198,6 +198,35 @@ def run(world, rep, tier, only=None):
                            o in (">=", "<"), "`%s`: a block number is bad when it is >= ext2fs_blocks_count()" % T.pp(x)[:70])
     rep.floor("C02.e comparisons with ext2fs_blocks_count() in e2fsck", n_cmp, 15)
 
+    # ------------------------------------------------------------------ C02.g the depth of an extent node is what its place in the tree says
+    # e2fsck (and every other user of the extent handle) takes leaf-or-index from the level reached, not from the
+    # node: a block whose header states another depth is malformed (the kernel refuses it) and must not pass.
+    eg = prog.fn("ext2fs_extent_get", "lib/ext2fs/extent.c")
+    reads = [n for n in calls_to(eg, "io_channel_read_blk64") if "newpath" in T.pp(arg(n, 3) or {})]
+    rep.floor("C02.g read of a child node in ext2fs_extent_get", len(reads), 1)
+    depth_tests = []
+    for bid in eg.blocks:
+        lit = eg.literal(bid)
+        if lit and ("ext3_extent_header", "eh_depth") in T.fields(lit[0]) and \
+                {"max_depth", "level"} <= set(T.field_names(lit[0])):
+            depth_tests.append(bid)
+    for i, rd in enumerate(reads):
+        ok = False
+        for bid in depth_tests:
+            lit = eg.literal(bid)
+            a0 = T.strip(lit[0])
+            # mismatch edge: the atom is `eh_depth == max_depth - level` (norm_cond turns != into negated ==)
+            mism = 1 if lit[1] else 0
+            if isinstance(a0, dict) and a0.get("o") == "==" and eg.block_end(bid) in eg.reach(eg.after(rd)):
+                tgt = eg.blocks[bid]["s"][mism]
+                r = eg.reach([eg.node(tgt, 0)], avoid=[eg.block_end(b2) for b2 in depth_tests])
+                rets = [x for x in eg.events("R") if x in r]
+                first = eg.witness_path([eg.node(tgt, 0)], rets) if rets else None
+                if first and first[-1].ev and "EXT2_ET_EXTENT_HEADER_BAD" in T.macros(first[-1].ev.get("x") or {}):
+                    ok = True
+        rep.ob("C02.g", site(eg, "child node's eh_depth compared with its level#%d" % i), ok,
+               "after the child block is read, `eh_depth != max_depth - level` returns EXT2_ET_EXTENT_HEADER_BAD")
+
 
 def _aborts_after(prog, fn, n):
     """every path from the call to the function's exit passes ctx->flags |= E2F_FLAG_ABORT or a noreturn call"""
